@@ -14,6 +14,9 @@ def load():
 
 
 def save(d):
+    for e in d['findings']:
+        if e.get('status') == 'fixed':
+            e['line'] = 'fixed: property=%s %s %s' % (e['property'], e.get('commit', ''), e['what'])
     json.dump(d, open(P, 'w'), indent=1)
     print('known_findings.json: %d entries' % len(d['findings']))
 
